@@ -3,7 +3,9 @@
 V="$(cd "$(dirname "$0")/.." && pwd)"
 R="${VERIF_REPO:-/repo}"
 mkdir -p "$V/.bin"
-cat > "$V/.bin/overlay.json" <<EOT
+OUT="${1:-$V/.bin/overlay.json}"
+case "$OUT" in /*) ;; *) OUT="$V/$OUT";; esac
+cat > "$OUT" <<EOT
 {"Replace": {
  "$R/encode/export_verif.go": "$V/inst/encode_export.go.txt",
  "$R/decode/export_verif.go": "$V/inst/decode_export.go.txt"
